@@ -833,17 +833,23 @@ def unroll_circuit_op(
         for op in m:
             op_untagged = op.untagged
             if isinstance(op_untagged, circuits.CircuitOperation):
-                if deep:
-                    op_untagged = op_untagged.replace(
-                        circuit=unroll_circuit_op(
-                            op_untagged.circuit, deep=deep, tags_to_check=tags_to_check
+                if tags_to_check is None or set(tags_to_check).intersection(op.tags):
+                    # Unroll from the outside in: the nested operations of the mapped circuit
+                    # know which measurement keys of the enclosing scopes they are bound to.
+                    mapped_circuit = op_untagged.mapped_circuit()
+                    if deep:
+                        mapped_circuit = unroll_circuit_op(
+                            mapped_circuit, deep=deep, tags_to_check=tags_to_check
                         )
-                    )
-                to_zip.append(
-                    op_untagged.mapped_circuit()
-                    if (tags_to_check is None or set(tags_to_check).intersection(op.tags))
-                    else circuits.Circuit(op_untagged.with_tags(*op.tags))
-                )
+                    to_zip.append(mapped_circuit)
+                else:
+                    if deep:
+                        op_untagged = op_untagged.replace(
+                            circuit=unroll_circuit_op(
+                                op_untagged.circuit, deep=deep, tags_to_check=tags_to_check
+                            )
+                        )
+                    to_zip.append(circuits.Circuit(op_untagged.with_tags(*op.tags)))
             else:
                 to_zip.append(circuits.Circuit(op))
         return circuits.Circuit.zip(*to_zip).moments
@@ -880,15 +886,15 @@ def unroll_circuit_op_greedy_earliest(
         lambda o: isinstance(o.untagged, circuits.CircuitOperation)
     ):
         op_untagged = cast(circuits.CircuitOperation, op.untagged)
-        if deep:
-            op_untagged = op_untagged.replace(
-                circuit=unroll_circuit_op_greedy_earliest(
-                    op_untagged.circuit, deep=deep, tags_to_check=tags_to_check
-                )
-            )
         if tags_to_check is None or set(tags_to_check).intersection(op.tags):
             batch_remove.append((i, op))
+            # Unroll from the outside in: the nested operations of the mapped circuit know
+            # which measurement keys of the enclosing scopes they are bound to.
             mapped_circuit = op_untagged.mapped_circuit()
+            if deep:
+                mapped_circuit = unroll_circuit_op_greedy_earliest(
+                    mapped_circuit, deep=deep, tags_to_check=tags_to_check
+                )
             if protocols.measurement_keys_touched(mapped_circuit):
                 # Operations that record or read classical data must keep their relative order
                 # (also with respect to later operations reading the same keys), which qubit
@@ -897,6 +903,11 @@ def unroll_circuit_op_greedy_earliest(
             else:
                 batch_insert.append((i, mapped_circuit.all_operations()))
         elif deep:
+            op_untagged = op_untagged.replace(
+                circuit=unroll_circuit_op_greedy_earliest(
+                    op_untagged.circuit, deep=deep, tags_to_check=tags_to_check
+                )
+            )
             batch_replace.append((i, op, op_untagged.with_tags(*op.tags)))
     unrolled_circuit = circuit.unfreeze(copy=True)
     unrolled_circuit.batch_replace(batch_replace)
@@ -938,15 +949,15 @@ def unroll_circuit_op_greedy_frontier(
             if any(frontier[q] > idx for q in op.qubits):
                 continue
             op_untagged = op.untagged
-            if deep:
-                op_untagged = op_untagged.replace(
-                    circuit=unroll_circuit_op_greedy_frontier(
-                        op_untagged.circuit, deep=deep, tags_to_check=tags_to_check
-                    )
-                )
             if tags_to_check is None or set(tags_to_check).intersection(op.tags):
                 unrolled_circuit.clear_operations_touching(op.qubits, [idx])
+                # Unroll from the outside in: the nested operations of the mapped circuit know
+                # which measurement keys of the enclosing scopes they are bound to.
                 mapped_circuit = op_untagged.mapped_circuit()
+                if deep:
+                    mapped_circuit = unroll_circuit_op_greedy_frontier(
+                        mapped_circuit, deep=deep, tags_to_check=tags_to_check
+                    )
                 if protocols.measurement_keys_touched(mapped_circuit):
                     # Operations that record or read classical data must keep their relative
                     # order (also with respect to later operations reading the same keys), which
@@ -962,6 +973,11 @@ def unroll_circuit_op_greedy_frontier(
                         mapped_circuit.all_operations(), idx, frontier
                     )
             elif deep:
+                op_untagged = op_untagged.replace(
+                    circuit=unroll_circuit_op_greedy_frontier(
+                        op_untagged.circuit, deep=deep, tags_to_check=tags_to_check
+                    )
+                )
                 unrolled_circuit.batch_replace([(idx, op, op_untagged.with_tags(*op.tags))])
         idx += 1
     return _to_target_circuit_type(unrolled_circuit, circuit)
